@@ -30,6 +30,8 @@ def parseObs (t : String) : Option Obs :=
     | "xStop" => some .xStop
     | "sStatic" => some .sStatic
     | "sDrop" => some .sDrop
+    | "iHbBegin" => some .iHbBegin
+    | "iHbEnd" => some .iHbEnd
     | "iShotUnlock" => some .iShotUnlock
     | "iShotLock" => some .iShotLock
     | "iSetFlag" => some .iSetFlag
